@@ -237,6 +237,16 @@ def history(seed_=None):
                 rnd_call(ft.mdft, ft.czt)
         prec = int(rng.choice([32, 64]))
         conf.precision = prec
+        if rng.random() < 0.5:
+            # gradient (reverse-mode) calls on the shared executor with the target's Q and shift, in both directions and with the
+            # shapes either way round: they read and may populate the same cache
+            g = rng.standard_normal((5, 6)) + 1j * rng.standard_normal((5, 6))
+            h_ = rng.standard_normal((3, 4)) + 1j * rng.standard_normal((3, 4))
+            calls = [lambda: ft.mdft.dft2_backprop(g, 2.0, (3, 4), (0.5, 1.0)), lambda: ft.mdft.idft2_backprop(g, 2.0, (3, 4), (0.5, 1.0)),
+                     lambda: ft.mdft.dft2_backprop(h_, 2.0, (5, 6), (0.5, 1.0)), lambda: ft.mdft.idft2_backprop(h_, 2.0, (5, 6), (0.5, 1.0))]
+            for k in rng.permutation(4):          # any subset, in any order (one call may populate what another would reuse)
+                if rng.random() < 0.5:
+                    calls[int(k)]()
         for name in ('dft2', 'idft2'):
             got = getattr(ft.mdft, name)(*args)
             fresh = getattr(ft.MatrixDFTExecutor(), name)(*args)
